@@ -11,13 +11,17 @@ class StdOutOutput(i_lib.Output):
         if self._line_pending:
             print(' ', end='')
 
+        # Flushed at once: with a buffer in front of standard output the text
+        # would otherwise appear after the commands to the lights that follow.
         print(output, end='')
+        sys.stdout.flush()
         # Text that ends in a line break (printf "...\n") leaves the cursor
         # at the start of a line: what comes next needs no separator.
         self._line_pending = not str(output).endswith('\n')
 
     def newline(self):
         print()
+        sys.stdout.flush()
         self._line_pending = False
 
     def flush(self):
